@@ -843,9 +843,16 @@ func (c *Cursor) Forward(ctx context.Context) error {
 		if err != nil {
 			return fmt.Errorf("load: %w", err)
 		}
+		depth := len(c.path)
 		pe.linkIndex++
 		c.path = append(c.path, pathEntry{node: node})
-		return c.Min(ctx)
+		err = c.Min(ctx)
+		if err != nil {
+			// undo the partial descent, so that the cursor has not moved and Forward can be retried
+			c.path = c.path[:depth]
+			c.path[depth-1].linkIndex--
+		}
+		return err
 	} else {
 		if pe.linkIndex+1 < len(node.Key) {
 			pe.linkIndex++
@@ -876,8 +883,14 @@ func (c *Cursor) Backward(ctx context.Context) error {
 		if err != nil {
 			return fmt.Errorf("load: %w", err)
 		}
+		depth := len(c.path)
 		c.path = append(c.path, pathEntry{node: node})
-		return c.Max(ctx)
+		err = c.Max(ctx)
+		if err != nil {
+			// undo the partial descent, so that the cursor has not moved and Backward can be retried
+			c.path = c.path[:depth]
+		}
+		return err
 	} else {
 		if pe.linkIndex > 0 {
 			pe.linkIndex--
